@@ -105,6 +105,8 @@ type c03hConnSpec struct {
 	FinRst   bool      `json:"fin_rst"`
 	CC       string    `json:"cc"`
 	ASN      uint      `json:"asn"`
+	GeoErr   string    `json:"geo_err"`   // "cc" / "asn": that GeoIP lookup fails for this peer
+	MidEpoch []int     `json:"mid_epoch"` // a statistics epoch INSIDE the handler's check window (between x->Check and Check->y) of these Reads (0 = the connection's first successful Read)
 }
 
 type c03hCase struct {
@@ -123,12 +125,15 @@ type c03hEvent struct {
 	// open
 	ASN     uint   `json:"asn"`
 	CC      string `json:"cc"`
+	CCErr   bool   `json:"cc_err"`  // the stand-in's CC lookup fails for this peer
+	ASNErr  bool   `json:"asn_err"` // ... its ASN lookup
 	V4      bool   `json:"v4"`
 	Tracked int    `json:"tracked"`
 	NTS     int    `json:"nts"`
 	// epoch
 	Snap      *c03hSnap `json:"snap,omitempty"`
 	Quiesced  bool      `json:"quiesced"`
+	Mid       bool      `json:"mid"` // epoch forced between the two updates of connection Conn's current loop iteration
 	AtMs      float64   `json:"at_ms"`
 	EpochPanic string   `json:"epoch_panic,omitempty"`
 }
@@ -208,6 +213,10 @@ type c03hConn struct {
 	done    bool
 	inRead  bool
 	lastEv  int // index of this connection's last read event (-1: none)
+	parked  bool // inside the check-window hook, waiting for its epoch
+	nreads  int  // successful Reads so far
+	mid     map[int]bool
+	midDone int  // last Read number whose check-window epoch has been run
 }
 
 type c03StrAddr struct{ s string }
@@ -248,6 +257,7 @@ func (c *c03hConn) Read(p []byte) (int, error) {
 	} else {
 		c.h.events = append(c.h.events, c03hEvent{Ev: "read", Conn: c.id, N: n})
 		c.lastEv = len(c.h.events) - 1
+		c.nreads++
 		c.res.Reads++
 		c.res.ReadBytes += n
 	}
@@ -291,6 +301,18 @@ func (c *c03hConn) RemoteAddr() net.Addr {
 func (c *c03hConn) vfLogRelayStart()      {}
 func (c *c03hConn) vfLogRelayRead([]byte) {}
 func (c *c03hConn) vfLogCall(v vfCall) {
+	// called by the transport recorder from the handler goroutine, i.e. between the handler's x->Check
+	// update and its Check->y update: a forced schedule point for an epoch inside that window
+	c.h.mu.Lock()
+	do := c.lastEv >= 0 && c.mid[c.nreads-1] && c.midDone < c.nreads
+	if do {
+		c.midDone = c.nreads
+		c.parked = true
+	}
+	c.h.mu.Unlock()
+	if do {
+		c.h.epoch(c)
+	}
 	c.h.mu.Lock()
 	if c.lastEv >= 0 {
 		c.h.events[c.lastEv].Calls = append(c.h.events[c.lastEv].Calls, v)
@@ -341,7 +363,7 @@ func (h *c03Hist) snap() *c03hSnap {
 
 func (h *c03Hist) quiescent() bool {
 	for _, c := range h.conns {
-		if c != nil && c.started && !c.done && !c.inRead {
+		if c != nil && c.started && !c.done && !c.inRead && !c.parked {
 			return false
 		}
 	}
@@ -349,7 +371,7 @@ func (h *c03Hist) quiescent() bool {
 }
 
 // one statistics epoch at a quiescent point: snapshot, then the real PrintAndReset
-func (h *c03Hist) epoch() {
+func (h *c03Hist) epoch(mid *c03hConn) {
 	limit := time.Now().Add(1500 * time.Millisecond)
 	q := false
 	for {
@@ -365,6 +387,10 @@ func (h *c03Hist) epoch() {
 		time.Sleep(300 * time.Microsecond)
 	}
 	ev := c03hEvent{Ev: "epoch", Conn: -1, Snap: h.snap(), Quiesced: q, AtMs: h.ms(time.Now())}
+	if mid != nil {
+		ev.Conn, ev.Mid = mid.id, true
+		mid.parked = false
+	}
 	func() {
 		defer func() {
 			if r := recover(); r != nil {
@@ -503,7 +529,10 @@ func (h *c03Hist) runConn(s *vfStation, id int, spec c03hConnSpec, v6ok bool, wg
 	}
 	defer peer.Close()
 	out.RealV6 = v6
-	conn := &c03hConn{Conn: a.c, h: h, id: id, res: out, lastEv: -1}
+	conn := &c03hConn{Conn: a.c, h: h, id: id, res: out, lastEv: -1, mid: map[int]bool{}}
+	for _, k := range spec.MidEpoch {
+		conn.mid[k] = true
+	}
 	if spec.Peer != "" {
 		ip := net.ParseIP(spec.Peer)
 		switch spec.PeerForm {
@@ -531,7 +560,7 @@ func (h *c03Hist) runConn(s *vfStation, id int, spec c03hConnSpec, v6ok bool, wg
 	}
 	out.RemoteIP = rip.String()
 	if rip != nil {
-		c03GeoDB.set(rip, c03GeoEntry{CC: spec.CC, ASN: spec.ASN})
+		c03GeoDB.set(rip, c03GeoEntry{CC: spec.CC, ASN: spec.ASN, CCErr: spec.GeoErr == "cc", ASNErr: spec.GeoErr == "asn"})
 	}
 	out.Tracked = s.rm.CountRegistrations(phantom)
 	t0 := time.Now()
@@ -540,12 +569,9 @@ func (h *c03Hist) runConn(s *vfStation, id int, spec c03hConnSpec, v6ok bool, wg
 
 	h.mu.Lock()
 	h.conns[id] = conn
-	asn := spec.ASN
-	if spec.CC == "unk" {
-		asn = 0
-	}
-	h.events = append(h.events, c03hEvent{Ev: "open", Conn: id, ASN: asn, CC: spec.CC, V4: out.PhantomV4, Tracked: out.Tracked,
-		NTS: len(s.rm.GetWrappingTransports())})
+	// what the GeoIP stand-in answers for this peer (the model derives the handler's asn / cc from it)
+	h.events = append(h.events, c03hEvent{Ev: "open", Conn: id, ASN: spec.ASN, CC: spec.CC, CCErr: spec.GeoErr == "cc", ASNErr: spec.GeoErr == "asn",
+		V4: out.PhantomV4, Tracked: out.Tracked, NTS: len(s.rm.GetWrappingTransports())})
 	conn.started = true
 	h.mu.Unlock()
 
@@ -674,7 +700,7 @@ func c03RunHist(s *vfStation, cs c03hCase, v6ok bool, res *c03hRes, wgAll *sync.
 					return
 				case <-time.After(time.Until(h.start.Add(time.Duration(e) * time.Millisecond))):
 				}
-				h.epoch()
+				h.epoch(nil)
 			}
 		}()
 	}
